@@ -243,6 +243,7 @@ def applicable(cls, v, spec):
     return True
 
 
+PREPHASE_SENSITIVE = ("neg", "missing", "noncons", "nonstr", "cycle", "selfloop", "nosource", "nosink")
 INPLACE = ("neg", "missing", "noncons", "cycle", "selfloop", "nosource", "nosink", "nonstr")
 
 
@@ -272,6 +273,12 @@ def make_cases(ctx, n_valid, n_pairs):
                 if v == "noncons" and conserving(s):
                     continue
                 yield ("single", cls, i, [v], s)
+                # classes with optional pre-phases in solve() (lower bounds, guessed weights): the input violations under EVERY vector
+                if vecs and len(vecs) > 10 and v in PREPHASE_SENSITIVE and i < 4:
+                    for vec in vecs:
+                        if vec != base.get("opts"):
+                            s2 = copy.deepcopy(s); s2["opts"] = dict(vec)
+                            yield ("single", cls, i, [v], s2)
                 # the same violation made IN PLACE on the graph object with which a valid model was built and solved before
                 if v in INPLACE and i % 4 == 0:
                     yield ("inplace", cls, i, [v], s, base)
